@@ -16,6 +16,7 @@
 (*     mux   : BOOLEAN              a=rtcp-mux present,                    *)
 (*     setup : "actpass"|"active"|"passive"|"holdconn"|"none",             *)
 (*     port0 : BOOLEAN,             m-line port 0 (section rejected)       *)
+(*     sim   : BOOLEAN,             a=simulcast present                     *)
 (*     fmts  : Seq(STRING) ]        m-line formats of a non-RTP section     *)
 (*                                  ("webrtc-datachannel", "t38"); <<>> for *)
 (*                                  audio/video (their formats are pts)     *)
@@ -94,6 +95,16 @@ SetupAcceptable(o, mode, a) ==
 FmtSubset(o, a) ==
   \A i \in Both(o, a) : a.secs[i].kind \notin RtpKinds => Range(a.secs[i].fmts) \subseteq Range(o.secs[i].fmts)
 
+(* EXT: a section the offer rejected (port 0) stays rejected; simulcast is only answered when offered *)
+RejectedStays(o, a) ==
+  \A i \in DOMAIN o.secs : (i \in DOMAIN a.secs /\ o.secs[i].port0) => a.secs[i].port0
+SimulcastOffered(o, a) ==
+  \A i \in Both(o, a) : a.secs[i].sim => o.secs[i].sim
+ExtFailed(o, a) ==
+  (IF FmtSubset(o, a) THEN {} ELSE {"FmtSubset"}) \cup
+  (IF RejectedStays(o, a) THEN {} ELSE {"RejectedStays"}) \cup
+  (IF SimulcastOffered(o, a) THEN {} ELSE {"SimulcastOffered"})
+
 RuleNames == {"SameCount", "SameKinds", "SameMids", "PtSubset", "RtxEcho", "ExtSubset", "ExtInjective", "DirCompatible",
               "MuxOffered", "BundleOffered", "SetupAcceptable"}
 
@@ -131,7 +142,7 @@ RejectAll(o) ==
                    dir |-> "inactive", mux |-> FALSE,
                    setup |-> (IF o.secs[i].setup = "none" THEN "none"
                               ELSE IF o.secs[i].setup = "passive" THEN "active" ELSE "passive"),
-                   port0 |-> TRUE, fmts |-> o.secs[i].fmts]],
+                   port0 |-> TRUE, sim |-> FALSE, fmts |-> o.secs[i].fmts]],
     bundle |-> <<>> ]
 
 Reverse(d) == CASE d = "sendonly" -> "recvonly" [] d = "recvonly" -> "sendonly" [] OTHER -> d
@@ -150,6 +161,6 @@ Intersect(o, codecs, uris) ==
           ext |-> SelectSeq(s.ext, LAMBDA e : e[2] \in uris),
           dir |-> Reverse(s.dir), mux |-> s.mux,
           setup |-> (IF s.setup = "none" THEN "none" ELSE IF s.setup = "passive" THEN "active" ELSE "passive"),
-          port0 |-> (s.kind \in RtpKinds /\ prim = <<>>), fmts |-> s.fmts]],
+          port0 |-> (s.port0 \/ (s.kind \in RtpKinds /\ prim = <<>>)), sim |-> FALSE, fmts |-> s.fmts]],
     bundle |-> o.bundle ]
 =============================================================================
